@@ -72,15 +72,19 @@ def run(ctx):
            "VERIF_CORPUS": os.path.join(core.ROOT, "corpus", "C16")}
     if ctx.replay:
         env["VERIF_REPLAY"] = ctx.replay_line_file()
-    sched_only = pick_only = False
+    sched_only = pick_only = load_only = False
     if ctx.replay:
         try:
             raw = open(env["VERIF_REPLAY"]).read().replace(" ", "")
-            sched_only = '"kind":"sched"' in raw
-            pick_only = '"kind":"pick"' in raw
+            load_only = raw.startswith('{"kind":"load"')
+            sched_only = not load_only and '"kind":"sched"' in raw
+            pick_only = not load_only and '"kind":"pick"' in raw
         except OSError:
             pass
-    if not sched_only and not pick_only:
+    only = os.environ.get("VERIF_C16_ONLY", "")      # development aid: run one driver only
+    if only == "load":
+        load_only = True
+    if not sched_only and not pick_only and not load_only:
         rc, out, outdir = ctx.go_test("./llm/", OVERLAY, "^TestVerifC16$", env=env, timeout=1500)
         if rc != 0:
             ctx.violation("driver-failed", "", out[-1500:], no_input=True)
@@ -90,7 +94,7 @@ def run(ctx):
         ctx.l1(outdir)
         ctx.classify(ctx.l2(outdir))
     # scheduler side: the real Scheduler.updateFreeSpace + composition with the real estimator
-    if (not ctx.replay or sched_only) and not pick_only:
+    if (not ctx.replay or sched_only) and not pick_only and not load_only:
         env2 = dict(env)
         env2["VERIF_N"] = ctx.scale(4000, 60000)
         rc, out, outdir = ctx.go_test("./server/", OVERLAY_SCHED, "^TestVerifC16Sched$", env=env2, timeout=1500)
@@ -101,7 +105,7 @@ def run(ctx):
         ctx.classify(ctx.l2(outdir))
     # scheduler's fit decisions: the real pickBestFullFitByLibrary / pickBestPartialFitByLibrary + the real
     # estimator on the returned list
-    if not ctx.replay or pick_only:
+    if (not ctx.replay or pick_only) and not load_only:
         env3 = dict(env)
         env3["VERIF_N"] = ctx.scale(1500, 20000)
         rc, out, outdir = ctx.go_test("./server/", OVERLAY_SCHED, "^TestVerifC16Pick$", env=env3, timeout=1500)
@@ -109,6 +113,16 @@ def run(ctx):
             ctx.violation("driver-failed", "", out[-1500:], no_input=True)
         ctx.read_stats(outdir)
         ctx.l1(outdir, label="L1-pick")
+        ctx.classify(ctx.l2(outdir))
+    # the scheduler's load path: the real Scheduler.processPending (GPU branch) on histories of requests
+    if not ctx.replay or load_only:
+        env4 = dict(env)
+        env4["VERIF_N"] = ctx.scale(1200, 20000)
+        rc, out, outdir = ctx.go_test("./server/", OVERLAY_SCHED, "^TestVerifC16Load$", env=env4, timeout=1500)
+        if rc != 0:
+            ctx.violation("driver-failed", "", out[-1500:], no_input=True)
+        ctx.read_stats(outdir)
+        ctx.l1(outdir, label="L1-load")
         ctx.classify(ctx.l2(outdir))
     ctx.assumptions.append("derived inputs (GraphSize, tensor/KV sizes, projector requirements, overhead) are "
                            "recomputed by the driver with the functions the estimator calls; flash attention off")
